@@ -185,9 +185,172 @@ fn gap_sweep(rep: &mut Report, args: &Args) {
     rep.extra.insert("gap_sweep_max_gap".into(), json!(max_gap));
 }
 
+/// One member of a numbered family: expression, document, and the result that is
+/// known by construction (so the oracle does not depend on any earlier call).
+fn family_member(fam: usize, i: usize) -> Option<(String, Value, Value)> {
+    let pad = "abcdefghijklmnopqrstuvwxyzABCDEFGHIJKLMN"; // 40 bytes
+    let types = [json!(null), json!(true), json!(1.5), json!("s"), json!([1]), json!({"a": 1}), json!(7)];
+    let names = ["null", "boolean", "number", "string", "array", "object", "number"];
+    Some(match fam {
+        0 => (format!("to_number('{}')", i), json!({"z": 0}), json!(i)),
+        1 => ("to_number(s)".to_string(), json!({"s": i.to_string()}), json!(i)),
+        2 => (format!("to_number('{}.5')", i), json!({"z": 0}), json!(i as f64 + 0.5)),
+        3 => (format!("`{}`", i), json!({"z": 0}), json!(i)),
+        4 => (format!("`\"{}{:06}\"`", pad, i), json!({"z": 0}), json!(format!("{}{:06}", pad, i))),
+        5 => (format!("'{}{}'", pad, i), json!({"z": 0}), json!(format!("{}{}", pad, i))),
+        6 => (format!("f{}", i), json!({format!("f{}", i): i, format!("f{}", i + 1): -1}), json!(i)),
+        7 => (format!("\"k {}\"", i), json!({format!("k {}", i): i, format!("k {}", i + 1): -1}), json!(i)),
+        8 => (format!("abs(`-{}`)", i), json!({"z": 0}), json!(i)),
+        9 => (format!("length('{}')", "x".repeat(i)), json!({"z": 0}), json!(i)),
+        10 => (format!("[`{}`, '{}']", i, i), json!({"z": 0}), json!([i, i.to_string()])),
+        11 => (format!("contains(`[{}]`, `{}`)", i, i), json!({"z": 0}), json!(true)),
+        12 => (format!("join('-', [`\"a\"`, '{}'])", i), json!({"z": 0}), json!(format!("a-{}", i))),
+        13 => (format!("xs[{}]", i % 50), json!({"xs": (0..50).collect::<Vec<i32>>()}), json!(i % 50)),
+        14 => (format!("xs[{}:{}]", i % 49, i % 49 + 2), json!({"xs": (0..51).collect::<Vec<i32>>()}), json!([i % 49, i % 49 + 1])),
+        15 => (format!("to_string(`{}`)", i), json!({"z": 0}), json!(i.to_string())),
+        16 => (format!("starts_with('{}abc', '{}')", i, i), json!({"z": 0}), json!(true)),
+        17 => ("type(@)".to_string(), types[i % 7].clone(), json!(names[i % 7])),
+        18 => (format!("type(`{}`)", types[i % 7]), json!({"z": 0}), json!(names[i % 7])),
+        19 => ("to_number(@)".to_string(), json!(format!("{}e1", i)), json!(i as f64 * 10.0)),
+        20 => ("sort_by(@, &k)[0].id".to_string(), json!([{"id": i, "k": 1}, {"id": i + 1, "k": 1}, {"id": i + 2, "k": 0}]), json!(i + 2)),
+        21 => ("max_by(@, &to_number(k)).id".to_string(), json!([{"id": 1, "k": i.to_string()}, {"id": 2, "k": (i + 1).to_string()}]), json!(2)),
+        22 => (format!("{{a: `{}`, b: '{}'}}.b", i, i), json!({"z": 0}), json!(i.to_string())),
+        23 => (format!("[?k == `{}`].id | [0]", i), json!([{"k": i + 1, "id": "no"}, {"k": i, "id": "yes"}]), json!("yes")),
+        _ => return None,
+    })
+}
+
+fn check_member(rep: &mut Report, fam: usize, i: usize, phase: &str, rt: Option<&Runtime>) {
+    let (text, doc, want) = match family_member(fam, i) {
+        Some(m) => m,
+        None => return,
+    };
+    rep.evaluations += 1;
+    let input = rcvar_of(&doc);
+    let r = guarded(|| match rt {
+        Some(rt) => rt.compile(&text).and_then(|x| x.search(&input)),
+        None => jmespath::compile(&text).and_then(|x| x.search(&input)),
+    });
+    let ok = match &r {
+        Ok(Ok(v)) => value_of(v).map_or(false, |g| refimpl::json::val_eq(&g, &want, 0.0)),
+        _ => false,
+    };
+    if ok {
+        rep.count("family_member_ok");
+        if i > 0 {
+            rep.nontrivial(fnv(format!("fam|{}|{}", fam, i).as_bytes()));
+        }
+    } else {
+        let got = match r {
+            Ok(Ok(v)) => v.to_string(),
+            Ok(Err(e)) => format!("error: {}", e),
+            Err(p) => format!("panic: {}", p),
+        };
+        rep.violation(
+            "C13/result-depends-on-history/numbered-family",
+            json!({"expression": text, "document": doc, "known_by_construction": want, "observed": got, "family": fam, "member": i, "phase": phase}),
+        );
+    }
+}
+
+/// State with a capacity or a lossy key (memo tables, interning, caches keyed by a
+/// hash or a sampled fingerprint) shows only after many *distinct* inputs of one
+/// shape, or for two inputs that collide. Each family below has members whose
+/// result is known by construction; every member is evaluated in ascending order,
+/// then descending, then in a shuffled order with revisits, then round-robin
+/// across families.
+fn family_sweep(rep: &mut Report, args: &Args) {
+    let n: usize = args.kv.get("family-n").and_then(|v| v.parse().ok()).unwrap_or(300);
+    let rt = make_runtime();
+    let fams: Vec<usize> = (0..24).filter(|f| (*f as u64) % args.shards == args.shard).collect();
+    for &fam in &fams {
+        for i in 0..n {
+            check_member(rep, fam, i, "ascending", None);
+        }
+        for i in (0..n).rev() {
+            check_member(rep, fam, i, "descending", None);
+        }
+        let mut rng = Rng::derive(args.seed, 777, fam as u64);
+        for _ in 0..n {
+            let i = rng.below(n);
+            check_member(rep, fam, i, "shuffled", if rng.chance(1, 4) { Some(&rt) } else { None });
+        }
+    }
+    // round-robin across all families (every shard takes a different slice of members)
+    let lo = (args.shard as usize * n) / args.shards as usize;
+    let hi = ((args.shard as usize + 1) * n) / args.shards as usize;
+    for i in lo..hi {
+        for fam in 0..24 {
+            check_member(rep, fam, i, "round-robin", None);
+        }
+    }
+    rep.extra.insert("family_sweep".into(), json!({"families": 24, "members_per_family": n}));
+}
+
+/// Two inputs of the same length that differ in a single byte, at every position,
+/// for several lengths: evaluate the base, then the variant, then the base again.
+fn one_byte_variants(rep: &mut Report, args: &Args) {
+    let lens = [6usize, 15, 16, 17, 31, 32, 33, 40, 48, 63, 64, 65, 100, 130];
+    let mut case = 0u64;
+    for &len in &lens {
+        for p in 0..len {
+            for form in 0..5 {
+                case += 1;
+                if case % args.shards != args.shard {
+                    continue;
+                }
+                let base: String = (0..len).map(|k| (b'a' + (k % 23) as u8) as char).collect();
+                let mut vb = base.clone().into_bytes();
+                vb[p] = b'Z';
+                let variant = String::from_utf8(vb).unwrap();
+                let mk = |s: &str| -> (String, Value, Value) {
+                    match form {
+                        0 => (format!("`\"{}\"`", s), json!(null), json!(s)),
+                        1 => (format!("'{}'", s), json!(null), json!(s)),
+                        2 => (format!("\"{}\"", s), json!({base.clone(): "base", variant.clone(): "variant"}), json!(if s == base { "base" } else { "variant" })),
+                        3 => (format!("{}", s), json!({base.clone(): "base", variant.clone(): "variant"}), json!(if s == base { "base" } else { "variant" })),
+                        _ => {
+                            // numeric strings through to_number: one digit differs
+                            let digits: String = s.bytes().map(|b| if b == b'Z' { '7' } else { (b'1' + (b % 3)) as char }).collect();
+                            let short = &digits[..digits.len().min(15)];
+                            (format!("to_number('{}')", short), json!(null), json!(short.parse::<u64>().unwrap()))
+                        }
+                    }
+                };
+                for (which, s) in [("base", &base), ("variant", &variant), ("base-again", &base)] {
+                    let (text, doc, want) = mk(s);
+                    rep.evaluations += 1;
+                    let input = rcvar_of(&doc);
+                    let r = guarded(|| jmespath::compile(&text).and_then(|x| x.search(&input)));
+                    let ok = match &r {
+                        Ok(Ok(v)) => value_of(v).map_or(false, |g| refimpl::json::val_eq(&g, &want, 0.0)),
+                        _ => false,
+                    };
+                    if ok {
+                        rep.count("one_byte_variant_ok");
+                        rep.nontrivial(fnv(format!("obv|{}|{}|{}|{}", len, p, form, which).as_bytes()));
+                    } else {
+                        let got = match r {
+                            Ok(Ok(v)) => v.to_string(),
+                            Ok(Err(e)) => format!("error: {}", e),
+                            Err(pn) => format!("panic: {}", pn),
+                        };
+                        rep.violation(
+                            "C13/result-depends-on-history/one-byte-variant",
+                            json!({"expression": text, "document": doc, "known_by_construction": want, "observed": got, "length": len, "position": p, "step": which}),
+                        );
+                    }
+                }
+            }
+        }
+    }
+}
+
 pub fn run(args: &Args) {
     let mut rep = Report::new("C13");
     gap_sweep(&mut rep, args);
+    family_sweep(&mut rep, args);
+    one_byte_variants(&mut rep, args);
     let rt = make_runtime();
     let histories = args.n;
     let ops_per_history: usize = args.kv.get("ops").and_then(|v| v.parse().ok()).unwrap_or(2000);
